@@ -40,10 +40,11 @@ func pointDetail(name string, obj interface{}) string {
 // ConcWriters: N goroutines write concurrently to one event log store; the explorer steps each writer
 // through the points begin / afterAppend / afterPersist / afterIndex.
 type ConcWriters struct {
+	kind    string // eventlog | keyvalue-distinct | keyvalue-same | docstore-same
 	net    *sim.Net
 	peer   *sim.Peer
 	inst   *sim.Instance
-	store  iface.EventLogStore
+	store  iface.Store
 	addr   string
 	n, per int
 	mu     sync.Mutex
@@ -52,32 +53,75 @@ type ConcWriters struct {
 	done   int
 }
 
-func NewConcWriters(n, per int) (*ConcWriters, error) {
-	w := &ConcWriters{net: sim.NewNet(), n: n, per: per, acked: map[string]string{}, errs: map[string]error{}}
+func (w *ConcWriters) storeType() string {
+	switch {
+	case strings.HasPrefix(w.kind, "keyvalue"):
+		return "keyvalue"
+	case strings.HasPrefix(w.kind, "docstore"):
+		return "docstore"
+	}
+	return "eventlog"
+}
+
+// write performs writer k's j-th write and returns the hash of the entry it was acknowledged with.
+func (w *ConcWriters) write(k, j int, payload string) (string, error) {
+	key := "k"
+	if strings.HasSuffix(w.kind, "-distinct") {
+		key = fmt.Sprintf("k%d", k)
+	}
+	switch s := w.store.(type) {
+	case iface.EventLogStore:
+		op, err := s.Add(bg, []byte(payload))
+		if err != nil {
+			return "", err
+		}
+		return op.GetEntry().GetHash().String(), nil
+	case iface.KeyValueStore:
+		op, err := s.Put(bg, key, []byte(payload))
+		if err != nil {
+			return "", err
+		}
+		return op.GetEntry().GetHash().String(), nil
+	case iface.DocumentStore:
+		op, err := s.Put(bg, map[string]interface{}{"_id": key, "v": payload})
+		if err != nil {
+			return "", err
+		}
+		return op.GetEntry().GetHash().String(), nil
+	}
+	return "", fmt.Errorf("unknown store")
+}
+
+func NewConcWriters(n, per int) (*ConcWriters, error) { return NewConcWritersKind("eventlog", n, per) }
+
+func NewConcWritersKind(kind string, n, per int) (*ConcWriters, error) {
+	w := &ConcWriters{kind: kind, net: sim.NewNet(), n: n, per: per, acked: map[string]string{}, errs: map[string]error{}}
 	w.peer = w.net.AddPeer("W")
 	inst, err := w.peer.Start(nil)
 	if err != nil {
 		return nil, err
 	}
 	w.inst = inst
-	s, err := inst.DB.Log(bg, "db", &orbitdb.CreateDBOptions{Replicate: boolp(false)})
+	s, err := inst.DB.Create(bg, "db", w.storeType(), &orbitdb.CreateDBOptions{Replicate: boolp(false)})
 	if err != nil {
 		return nil, err
 	}
 	w.store, w.addr = s, s.Address().String()
 	sim.UsePointGates(w.net.Gates, pointDetail)
-	w.net.Gates.Enable(func(kind, peer, key, caller string) bool { return kind == "point" && strings.HasPrefix(peer, "write.") })
+	w.net.Gates.Enable(func(kind, peer, key, caller string) bool {
+		return kind == "point" && (strings.HasPrefix(peer, "write.") || strings.HasPrefix(peer, "index."))
+	})
 	for k := 0; k < n; k++ {
 		k := k
 		go func() {
 			for j := 0; j < per; j++ {
 				payload := fmt.Sprintf("w%d.%d", k, j)
-				op, err := w.store.Add(bg, []byte(payload))
+				h, err := w.write(k, j, payload)
 				w.mu.Lock()
 				if err != nil {
 					w.errs[payload] = err
 				} else {
-					w.acked[payload] = op.GetEntry().GetHash().String()
+					w.acked[payload] = h
 				}
 				w.mu.Unlock()
 			}
@@ -143,7 +187,7 @@ func (w *ConcWriters) Final() []explore.Violation {
 		}
 		seen[h] = p
 	}
-	before, err := listPayloads(w.store)
+	before, err := w.visible(w.store)
 	if err != nil {
 		return append(out, explore.Violation{Signature: "list-error", Detail: err.Error()})
 	}
@@ -154,8 +198,11 @@ func (w *ConcWriters) Final() []explore.Violation {
 	sort.Strings(keys)
 	for _, p := range keys {
 		if before[p] != 1 {
-			out = append(out, explore.Violation{Signature: "acknowledged-write-not-visible-once", Detail: fmt.Sprintf("write %s acknowledged but listed %d times before restart (listing %v)", p, before[p], before)})
+			out = append(out, explore.Violation{Signature: "acknowledged-write-not-visible-once", Detail: fmt.Sprintf("write %s acknowledged but recorded %d times before restart (log %v)", p, before[p], before)})
 		}
+	}
+	if msg := viewVsReplay(w.store); msg != "" {
+		out = append(out, explore.Violation{Signature: "view-differs-from-log-after-concurrent-writes", Detail: msg})
 	}
 	// restart
 	_ = w.inst.Close()
@@ -168,7 +215,7 @@ func (w *ConcWriters) Final() []explore.Violation {
 		return append(out, explore.Violation{Signature: "restart-failed", Detail: err.Error()})
 	}
 	w.inst = inst
-	s, err := inst.DB.Log(bg, w.addr, &orbitdb.CreateDBOptions{Replicate: boolp(false)})
+	s, err := inst.DB.Open(bg, w.addr, &orbitdb.CreateDBOptions{Replicate: boolp(false)})
 	if err != nil {
 		return append(out, explore.Violation{Signature: "reopen-failed", Detail: err.Error()})
 	}
@@ -177,7 +224,7 @@ func (w *ConcWriters) Final() []explore.Violation {
 		return append(out, explore.Violation{Signature: "load-failed", Detail: err.Error()})
 	}
 	_ = sim.Quiesce()
-	after, err := listPayloads(s)
+	after, err := w.visible(s)
 	if err != nil {
 		return append(out, explore.Violation{Signature: "list-error", Detail: err.Error()})
 	}
@@ -189,6 +236,48 @@ func (w *ConcWriters) Final() []explore.Violation {
 		}
 	}
 	return out
+}
+
+// visible counts, per written payload, the entries of the store's log that carry it.
+func (w *ConcWriters) visible(s iface.Store) (map[string]int, error) {
+	if el, ok := s.(iface.EventLogStore); ok {
+		return listPayloads(el)
+	}
+	m := map[string]int{}
+	for _, e := range s.OpLog().Values().Slice() {
+		op, err := parseOp(e)
+		if err != nil {
+			return nil, err
+		}
+		v := string(op.GetValue())
+		if w.storeType() == "docstore" {
+			var d map[string]interface{}
+			if json.Unmarshal(op.GetValue(), &d) == nil {
+				v, _ = d["v"].(string)
+			}
+		}
+		m[v]++
+	}
+	return m, nil
+}
+
+// viewVsReplay compares a key-value or document store's view with the replay of its own log.
+func viewVsReplay(s iface.Store) string {
+	vals := s.OpLog().Values().Slice()
+	switch st := s.(type) {
+	case iface.KeyValueStore:
+		ref, _ := RefKV(vals)
+		if got := st.All(); !sameKV(ref, got) {
+			return fmt.Sprintf("All()=%s but the log replays to %s", kvString(got), kvString(ref))
+		}
+	case iface.DocumentStore:
+		ref, _ := RefDocs(vals)
+		ds, _ := st.Query(bg, func(interface{}) (bool, error) { return true, nil })
+		if g, want := docsMultiset(ds), refMultiset(ref, func(string, []byte) bool { return true }); g != want {
+			return fmt.Sprintf("documents %s but the log replays to %s", g, want)
+		}
+	}
+	return ""
 }
 
 func (w *ConcWriters) Close() {
@@ -204,11 +293,16 @@ func (w *ConcWriters) Close() {
 }
 
 type C17Arg struct {
+	Kind                         string
 	N, Per, Bound, Shards, Shard int
 }
 
 func (a C17Arg) Name() string {
-	return fmt.Sprintf("concwriters/n%d/per%d/dev%d/shard%d.%d", a.N, a.Per, a.Bound, a.Shard, a.Shards)
+	k := a.Kind
+	if k == "" {
+		k = "eventlog"
+	}
+	return fmt.Sprintf("concwriters/%s/n%d/per%d/dev%d/shard%d.%d", k, a.N, a.Per, a.Bound, a.Shard, a.Shards)
 }
 
 func c17Units(base C17Arg, shards int) []explore.Unit {
@@ -225,10 +319,18 @@ func c17Units(base C17Arg, shards int) []explore.Unit {
 func init() {
 	explore.Register(&explore.CheckDef{
 		ID: "C17", Level: "model_checking",
-		Rule: "N goroutines each issue Add on one store; every writer is stepped by the explorer through the schedule points begin / after log append / after head persisted / after view update (hooks H4); all interleavings for N=2 and N=3 (N=3 bounded in quick), all schedules with <= 2 deviations for N=4..8; every execution runs to completion, then the instance is closed, reopened on the same cache and loaded. Oracle: acknowledged calls returned pairwise distinct entries, each listed exactly once before restart and exactly once after reopen+Load(-1). Non-trivial = executions with at least one deviation from the canonical (sequential) schedule.",
+		Rule: "N goroutines each issue one write on one store (event log; key-value and document store with the same or distinct keys); every writer is stepped by the explorer through the schedule points begin / after log append / after head persisted / between reading the log and locking the index / after view update (hooks H4, H5); all interleavings for N=2 and N=3 (N=3 bounded in quick), all schedules with <= 2 deviations for N=4..8; every execution runs to completion, then the instance is closed, reopened on the same cache and loaded. Oracle: acknowledged calls returned pairwise distinct entries, each recorded exactly once before restart and exactly once after reopen+Load(-1), and the key-value / document view equals the replay of the store's own log once all writers have returned. Non-trivial = executions with at least one deviation from the canonical (sequential) schedule.",
 		Units: func(tier string) []explore.Unit {
 			var u []explore.Unit
 			u = append(u, c17Units(C17Arg{N: 2, Per: 1, Bound: -1}, 8)...)
+			// key-value and document stores: the extra point between reading the log and locking the index
+			kb := 4
+			if tier == "thorough" {
+				kb = -1
+			}
+			for _, k := range []string{"keyvalue-same", "keyvalue-distinct", "docstore-same"} {
+				u = append(u, c17Units(C17Arg{Kind: k, N: 2, Per: 1, Bound: kb}, 8)...)
+			}
 			if tier == "thorough" {
 				u = append(u, c17Units(C17Arg{N: 3, Per: 1, Bound: -1}, 48)...)
 				u = append(u, c17Units(C17Arg{N: 2, Per: 2, Bound: -1}, 32)...)
@@ -258,7 +360,13 @@ func init() {
 			d := &explore.ScheduleDFS{
 				Settle:   settle,
 				Scenario: a.Name(),
-				New:      func() (explore.World, error) { return NewConcWriters(a.N, a.Per) },
+				New: func() (explore.World, error) {
+					k := a.Kind
+					if k == "" {
+						k = "eventlog"
+					}
+					return NewConcWritersKind(k, a.N, a.Per)
+				},
 				Bound:    a.Bound, Horizon: 400, Stats: c.Stats, Journal: c.JournalHist, Expired: c.Expired,
 				Shards: a.Shards, Shard: a.Shard,
 				Terminal: func(w explore.World, hist []string) []explore.Violation { return w.(*ConcWriters).Final() },
